@@ -10,6 +10,7 @@ import (
 	_ "verifsim/sims/dbsim"
 	_ "verifsim/sims/ledgersim"
 	_ "verifsim/sims/migsim"
+	_ "verifsim/sims/nqsim"
 	_ "verifsim/sims/queuesim"
 	_ "verifsim/sims/toysim"
 	_ "verifsim/sims/vaultsim"
